@@ -4,7 +4,8 @@ C19 — the small abstract account the property talks about.
 * `firstMatch`: walk the policies in configured order; the first one all of whose matchers accept
   the hello decides (config, or refusal if it says drop); nobody accepts ⇒ refusal.
   No index, no candidate list, no size threshold.
-* `namesSameHost`: two names are the same host iff they are equal up to ASCII case.
+* `namesSameHost`: the equivalence the TLS side uses (`strings.ToLower` equality);
+  `foldSame`: the equivalence the HTTP side uses (`strings.EqualFold`). They agree on ASCII names.
 -/
 import CaddyModel.C19.Model
 
@@ -27,10 +28,19 @@ def Choice.refused : Choice → Bool
   | .config _ => false
   | _ => true
 
-/-- host names are compared ASCII-case-insensitively -/
+/-- the two names select the same TLS connection policies: equal after `strings.ToLower`
+    (the comparison certmagic.MatchWildcard makes) -/
 def namesSameHost (a b : Bytes) : Prop := lower a = lower b
 
 instance (a b : Bytes) : Decidable (namesSameHost a b) := by unfold namesSameHost; infer_instance
+
+/-- the two names are equal for `strings.EqualFold` (strict SNI-Host check, host matcher) -/
+def foldSame (a b : Bytes) : Prop := foldKey a = foldKey b
+
+instance (a b : Bytes) : Decidable (foldSame a b) := by unfold foldSame; infer_instance
+
+/-- only ASCII symbols (RFC 6066: a server_name is ASCII; IDNs travel as A-labels) -/
+def isAscii (s : Bytes) : Bool := s.all (· < 128)
 
 /-- the policy has an `sni` matcher that lists `k` byte for byte (what the index is keyed on) -/
 def Matcher.lists (k : Bytes) : Matcher → Bool
